@@ -358,16 +358,10 @@ def _emission(chk, fi, fm, loop) -> None:
     for store, mp, cls, en, lst in (("base_phosphate_pairs", "bph_map", "BasePhosphate", "BPh", "base_phosphates"), ("base_ribose_pairs", "br_map", "BaseRibose", "BR", "base_riboses")):
         d = astq.first_assign(fi.node, mp)
         chk.expect(d is not None and norm(d) == f"merge_and_clean_bph_br(sorted({store}))", "sorted-emission", fi.where, f"{mp} is built from the sorted contact list", f"{mp} is not merge_and_clean_bph_br(sorted({store})): output order follows KD-tree order", K(fi, f"{mp}-sorted"), found=norm(d) if d is not None else None)
-        loops = [l for l in fi.node.body if isinstance(l, ast.For) and norm(l.iter) == f"{mp}.items()"]
-        ok = False
-        if len(loops) == 1:
-            cons = [c for c in ast.walk(loops[0]) if isinstance(c, ast.Call) and astq.callee_name(c) == cls]
-            ok = len(cons) == 1 and [norm(a) for a in cons[0].args] == ["Residue(residue_i.label, residue_i.auth)", "Residue(residue_j.label, residue_j.auth)", f"{en}[f'_{{{'bph' if en == 'BPh' else 'br'}}}']"]
-            unp = [s for s in loops[0].body if isinstance(s, ast.Assign) and flat(s) == flat("residue_i, residue_j = pair")]
-            ok = ok and len(unp) == 1 and flat(loops[0].target) in ("pair,bphs", "pair,brs")
-        chk.expect(ok, "bph-emission", fi.where, f"every (pair, class) of {mp} becomes {cls}(donor, acceptor, {en}[_class])", f"{cls} objects are not built as (Residue(donor), Residue(acceptor), {en}[f'_{{class}}']) from {mp}", K(fi, f"{mp}-emission"))
+        chk.robust |= {"bph-emission"}
+        c11e.check_bph_emission(chk, fi, mp, cls, en)
     # base pair emission
-    ems = c03.find_emission(fi, "base_base_pairs")
+    ems = c03.find_emission(c11e.with_local_helpers_inlined(fi), "base_base_pairs")
     if len(ems) != 1 or not (isinstance(ems[0][1], ast.Tuple) and len(ems[0][1].elts) == 3 and all(isinstance(e, ast.Name) for e in ems[0][1].elts)):
         chk.error("sorted-emission", fi.where, "place where the recorded base pairs become BasePair objects not found")
     else:
@@ -464,6 +458,14 @@ def run(chk) -> None:
 
     fs = chk.repo.func(AN, "find_stackings")
     chk.note_function(fs)
+    try:
+        from checks import c03e, c04, c04e
+
+        chk.robust |= {"stack-orientation"}
+        sloop = c03.kd_loop(chk, fs)
+        c04e.check_orientation(chk, fs, sloop, c03e.build_sites(fs, sloop), Folder(chk.repo, AN).fold, c04.make_label_of(chk.repo))
+    except (c03e.NotReadable, c03e.SX.TooManyPaths) as ex:
+        chk.error("stack-orientation", fs.where, f"orientation of the recorded stackings not readable: {str(ex)[:120]}")
     outs = [l for l in ast.walk(fs.node) if isinstance(l, (ast.For, ast.comprehension)) and norm(l.iter) == "sorted(pairs)"]
     chk.expect(len(outs) == 1, "sorted-emission", fs.where, "stackings are emitted from sorted(pairs)", "stackings are not emitted by iterating sorted(pairs)", K(fs, "emission"))
     for rule, n in (("saenger-symmetric", 1), ("bph-class-table", 19), ("contact-skips", 4), ("sorted-emission", 4), ("bph-merge", 3), ("bph-one-class", 1), ("saenger-lookup", 1)):
